@@ -91,8 +91,9 @@ Definition float_demangle (raw : bytes) : bytes :=
   end.
 
 (* `fix_negzero` = false: the code as it is (math.Float64bits of the value is mangled as is).
-   Setting it to true models fixes/C15-float-negzero.diff (`if floatVal == 0 { floatVal = 0 }`
-   before taking the bits, which turns -0.0 into +0.0). *)
+   Setting it to true models the candidate repair `if floatVal == 0 { floatVal = 0 }` before
+   taking the bits (turns -0.0 into +0.0); that repair is NOT proposed, because the pinned test
+   TestFloatIndexOnNegatives requires -0.0 to sort before +0.0 in an index. *)
 Definition fix_negzero : bool := false.
 Definition float_key_bits (fz : bool) (bits : N) : N := if fz && f_iszero bits then 0 else bits.
 
